@@ -1,5 +1,7 @@
 package twig
 
+import "runtime"
+
 // C13: whitespace-control dashes trim adjacent whitespace and change nothing else. Public API only.
 //
 // A template is a list of pieces: text, tag, text, tag, ... Every tag delimiter gets a symbolic
@@ -193,4 +195,33 @@ func VH_C13_Trim() {
 	}
 	src, ref := vhC13Build(tp, dl, dr, wls, wrs)
 	vhC13Check(tp, src, ref)
+}
+
+// VH_C13_Dense: the same equivalence (dashed template = hand-trimmed template) when the construct
+// stands inside a template with hundreds of tags: k tags in front (k around the count at which the
+// tokenizer's token storage first grows) and 100 behind, all contributing nothing; sync.Pool contents
+// dropped first so that the tokenizer starts with its initial storage.
+func VH_C13_Dense() {
+	tp := []vhTpl{vhC13Corpus[0], vhC13Corpus[1], vhC13Corpus[4], vhC13Corpus[6], vhC13Corpus[16]}[symChoice(5)]
+	nt := len(tp.tags)
+	dl := make([]bool, nt)
+	dr := make([]bool, nt)
+	for i := range tp.tags {
+		dl[i], dr[i] = symBool(), symBool()
+	}
+	wls := make([]string, nt+1)
+	wrs := make([]string, nt+1)
+	for i := 0; i <= nt; i++ {
+		wls[i], wrs[i] = " \n", "\t "
+	}
+	src, ref := vhC13Build(tp, dl, dr, wls, wrs)
+	k := symParam("PADLO", 83) + symChoice(symParam("PADN", 5))
+	unit := "{# c #}"
+	if symBool() {
+		unit = "{{ zz }}"
+	}
+	pre, post := vhRepeatStr(unit, k), vhRepeatStr(unit, 100)
+	runtime.GC()
+	runtime.GC()
+	vhC13Check(tp, pre+src+post, pre+ref+post)
 }
